@@ -74,6 +74,9 @@ def make_base(name):
             v = np.array(V6, float) @ R.T + off
         elif tag == "lattice":
             v = np.array(CUBECUT, float) + np.array([3.0, -1.0, 0.5])
+        elif tag == "simplex":
+            # a scalene tetrahedron: circumsphere AND insphere exist, so every *_radius setter can be honoured
+            v = np.array([[0, 0, 0], [3, 0, 0], [0.5, 2, 0], [1, 0.7, 2.5]], float) @ R.T + off
         elif tag == "tab":
             v = np.array(TRTET, float) * 0.37 @ _rot((2, -1, 5, 3)).T + np.array([-4.0, 0.5, 2.0])
         elif tag == "tri":
@@ -100,6 +103,9 @@ def make_base(name):
         p = np.array(LPOLY if cls == "Polygon" else QUAD, float)
     elif tag == "lattice":
         p = np.array(RECT, float)
+    elif tag == "simplex":
+        # a scalene triangle: circumcircle and incircle exist
+        p = np.array([[0, 0], [4, 0], [1, 2.5]], float)
     elif tag == "cw":
         p = np.array((LPOLY if cls == "Polygon" else QUAD)[::-1], float)
     elif tag == "xy":
@@ -152,10 +158,14 @@ BASES = [
     "ConvexSpheropolygon/xy",
     "ConvexPolygon/down",
     "ConvexSpheropolygon/down",
+    "ConvexPolyhedron/simplex",
+    "Polyhedron/simplex",
+    "ConvexPolygon/simplex",
+    "Polygon/simplex",
 ]
 
 # C03 explores histories from these; C08 (single steps) additionally starts from every tiny base
-BASES_C03 = [b for b in BASES if b not in ("Polyhedron/tiny", "ConvexSpheropolyhedron/tiny", "ConvexPolygon/tiny")]
+BASES_C03 = [b for b in BASES if b not in ("Polyhedron/tiny", "ConvexSpheropolyhedron/tiny", "ConvexPolygon/tiny", "Polyhedron/simplex", "Polygon/simplex")]
 
 # ---------------------------------------------------------------------------
 # canonical state
